@@ -56,18 +56,11 @@ def padPkcs1Dec (m k : Nat) : Option (Nat × Nat) :=
   if m / 256 ^ (k - 1) ≠ 0 then none else
   if byteAt m (k - 2) ≠ 2 then none else
   let ml := pkcs1Scan m k (k - 2)
-  -- *p_len = (k - 1) - (m_len - 1); result = (m_len > 0 ? RLC_OK : RLC_ERR)
-  -- (no test of the padding length k - 3 - m_len ≥ 8: finding C06-2; a repaired pad_pkcs1 needs that conjunct here)
-  if ml > 0 then some (m % 256 ^ ml, k - ml) else none
+  -- *p_len = (k - 1) - (m_len - 1); result = (m_len > 0 && (k_len - 3 - m_len) >= 8 ? RLC_OK : RLC_ERR)
+  if ml > 0 ∧ k - 3 - ml ≥ 8 then some (m % 256 ^ ml, k - ml) else none
 
-/-- number of digits `bn_trim` leaves (at least one) -/
-def usedDigits (w m : Nat) : Nat := if m = 0 then 1 else Nat.log2 m / w + 1
-
-/-- `for (i = 0; i < t->used; i++) m->dp[i] ^= t->dp[i];` with `m->used` unchanged: digits of t above m->used are lost
-    (finding C06-1; once pad_pkcs2 is repaired this becomes `m ^^^ t`) -/
-def xorDigits (w m t : Nat) : Nat := (m ^^^ t) % 2 ^ (w * usedDigits w m)
-
-def padPkcs2Dec (H : Hash) (w : Nat) (m k : Nat) : Option (Nat × Nat) :=
+/-- pad_pkcs2, RSA_DEC: the digit-wise xor of the mask (after zero-extension of the trimmed block) is the xor of the integers -/
+def padPkcs2Dec (H : Hash) (m k : Nat) : Option (Nat × Nat) :=
   let md := H.outLen
   if m / 256 ^ (k - 1) ≠ 0 then none else
   let ml := k - 1 - md
@@ -76,7 +69,7 @@ def padPkcs2Dec (H : Hash) (w : Nat) (m k : Nat) : Option (Nat × Nat) :=
   let h2 := mgf1 H (i2osp m ml) md
   let seed := xorBytes h1 h2
   let t := os2ip (mgf1 H seed (k - md - 1))
-  let m := xorDigits w m t
+  let m := m ^^^ t
   let ml := ml - md
   let h2 := i2osp (m / 256 ^ ml) md
   let m := m % 256 ^ ml
@@ -85,19 +78,19 @@ def padPkcs2Dec (H : Hash) (w : Nat) (m k : Nat) : Option (Nat × Nat) :=
   let pl := byteLen m - 1
   if h2 = H.h [] ∧ m / 256 ^ pl = 1 then some (m % 256 ^ pl, k - pl) else none
 
-def padDec (H : Hash) (w : Nat) (pad : RsaPad) (m k : Nat) : Option (Nat × Nat) :=
+def padDec (H : Hash) (pad : RsaPad) (m k : Nat) : Option (Nat × Nat) :=
   match pad with
   | .basic => padBasicDec m k
   | .pkcs1 => padPkcs1Dec m k
-  | .pkcs2 => padPkcs2Dec H w m k
+  | .pkcs2 => padPkcs2Dec H m k
 
 /-- cp_rsa_dec: `none` = RLC_ERR -/
-def rsaDec (H : Hash) (w : Nat) (pad : RsaPad) (crt : Bool) (key : RsaKey) (c : Bytes) (cap : Nat) : Option Bytes :=
+def rsaDec (H : Hash) (pad : RsaPad) (crt : Bool) (key : RsaKey) (c : Bytes) (cap : Nat) : Option Bytes :=
   let size := byteLen key.n
   if c.length ≠ size ∨ c.length < pad.overhead H then none else
   let eb := os2ip c
   let eb := if crt then mxpCrt eb key.dp key.dq key.p key.q key.qi else powMod eb key.d key.n
-  match padDec H w pad eb size with
+  match padDec H pad eb size with
   | none => none
   | some (m, pl) => if size - pl ≤ cap then some (i2osp m (size - pl)) else none
 
@@ -127,7 +120,7 @@ def rsaEnc (H : Hash) (pad : RsaPad) (key : RsaKey) (msg rnd : Bytes) (cap : Nat
 /-- the redundancy test of one candidate: the two low 8-octet words agree -/
 def rabinRed (r : Nat) : Bool := r / 2 ^ 64 % 2 ^ 64 == r % 2 ^ 64
 
-/-- `do { size--; pad = byte(size) } while (pad == 0)` — does not terminate for m = 0 (guarded by the caller here) -/
+/-- `do { size--; pad = byte(size) } while (pad == 0 && size > 0)` -/
 def rabinScan (m : Nat) : Nat → Nat → Nat
   | 0, sz => sz
   | f + 1, sz =>
@@ -150,8 +143,8 @@ def rabinDec (n p q : Nat) (dp dq : Int) (c : Bytes) (cap : Nat) : Option Bytes 
   | some r =>
     let m := r / 2 ^ 64
     let size := byteLen n - 1
-    if m / 256 ^ size ≠ 0 then none    -- (the C code still copies to the buffer here; only the status is modelled)
-    else if m = 0 then none             -- the scan loop does not terminate: treated as failure
+    if m / 256 ^ size ≠ 0 then none
+    else if m = 0 then none             -- the scan stops at the last octet without meeting the marker
     else
       let sz := rabinScan m size size
       if byteAt m sz ≠ 0xFF then none
